@@ -101,6 +101,12 @@ def rows : List Row := [
   ⟨"F03h", "MemoryError", "xpath30/_xpath30_functions.py:evaluate__pow", ["pow"], 0⟩,
   ⟨"F03h", "Hang", "xpath30/_xpath30_functions.py:evaluate__exp10", ["exp10"], 0⟩,
   ⟨"F03h", "MemoryError", "xpath30/_xpath30_functions.py:evaluate__exp10", ["exp10"], 0⟩,
+  ⟨"F03h", "InvalidOperation", "datatypes/datetime.py:__mul__", durTypes ++ ["implicit-timezone"], 0⟩,
+  ⟨"F03h", "InvalidOperation", "xpath2/_xpath2_functions.py:evaluate__avg", ["avg"], 0⟩,
+  ⟨"F03h", "InvalidOperation", "xpath30/_xpath30_functions.py:evaluate__pow", ["pow"], 0⟩,
+  ⟨"F03h", "Overflow", "xpath30/_xpath30_functions.py:evaluate__pow", ["pow"], 0⟩,
+  ⟨"F03h", "OverflowError", "xpath30/xpath30_helpers.py:roman_num", ["format-integer"], 0⟩,
+  ⟨"F03h", "MemoryError", "xpath30/xpath30_helpers.py:roman_num", ["format-integer"], 0⟩,
   ⟨"F03h", "OverflowError", "datatypes/datetime.py:_compare_durations", durTypes, 0⟩,
   ⟨"F03h", "OverflowError", "datatypes/datetime.py:fromduration", durTypes, 0⟩,
   ⟨"F03h", "ValueError", "datatypes/datetime.py:__init__", ["date", "dateTime", "gYear", "gYearMonth", "dateTimeStamp"], 0⟩,   -- repaired on branch fix-c11
